@@ -277,19 +277,20 @@ def nonconforming(rng, t):
     return ["i", 1]
 
 
-def some_value(rng, t, p_bad=0.12):
+def some_value(rng, t, p_bad=0.06):
     return nonconforming(rng, t) if rng.random() < p_bad else conforming(rng, t)
 
 
 def some_fn(rng, t):
+    """a preparer that mostly makes sense for the attribute's type"""
     r = rng.random()
-    if r < 0.35:
+    if r < 0.08:
+        return rng.choice([["inc"], ["wrap"], ["const", nonconforming(rng, t)]])
+    if t in ("int", "optint") and r < 0.55:
         return ["inc"]
-    if r < 0.55:
+    if r < 0.75:
         return ["id"]
-    if r < 0.7:
-        return ["wrap"]
-    return ["const", some_value(rng, t, 0.15)]
+    return ["const", conforming(rng, t)]
 
 
 def some_dflt(rng, t):
@@ -537,10 +538,10 @@ def candidate_keywords(rng, table_attrs, overflow, n):
     names = list(table_attrs)          # [(aid, ty)]
     rng.shuffle(names)
     for a, t in names:
-        cands.append([a, some_value(rng, t, 0.2)])
+        cands.append([a, some_value(rng, t, 0.12)])
     extra = [[ZETA, ["i", 1]], [ETA, ["s", 2]]]
     rng.shuffle(extra)
-    k_unknown = rng.choice([0, 1, 1, 2])
+    k_unknown = rng.choice([0, 0, 1, 1, 2])
     cands = cands[:max(1, n - k_unknown)] + extra[:k_unknown]
     return cands[:n]
 
